@@ -28,3 +28,6 @@ const (
 	VerifMaxNodeAddressLength    = maxNodeAddressLength
 	VerifMaxCounterValue         = maxCounterValue
 )
+
+// VerifNewClusterView exposes newClusterView.
+func VerifNewClusterView() *ClusterView { return newClusterView() }
